@@ -137,6 +137,30 @@ def pipe_verilog_bmapi(work, gmp, bmjson, flavor="aximm"):
     return res
 
 
+def pipe_verilog_etherbond(work, gmp, bmjson):
+    """HDL generation for a board with the etherbond transceiver: the machine's inputs and outputs are mapped on cluster-wide ids"""
+    import json as _json
+    open(os.path.join(work, "bm.json"), "wb").write(bmjson)
+    bm = _json.loads(bmjson)
+    ni, no = bm.get("Inputs", 0), bm.get("Outputs", 0)
+    assoc = {"i%d" % i: str(10 + i) for i in range(ni)}
+    assoc.update({"o%d" % i: str(20 + i) for i in range(no)})
+    open(os.path.join(work, "ethmap.json"), "w").write(_json.dumps({"Assoc": assoc}, sort_keys=True))
+    cluster = {"ClusterId": 1, "Peers": [
+        {"PeerId": 1, "PeerName": "", "Channels": [], "Inputs": [10 + i for i in range(ni)], "Outputs": [20 + i for i in range(no)]},
+        {"PeerId": 2, "PeerName": "", "Channels": [], "Inputs": [20 + i for i in range(no)], "Outputs": [10 + i for i in range(ni)]}]}
+    open(os.path.join(work, "cluster.json"), "w").write(_json.dumps(cluster))
+    vd = os.path.join(work, "v")
+    os.mkdir(vd)
+    rc, out = run_tool([tool("bondmachine"), "-bondmachine-file", "../bm.json", "-register-size", "8", "-create-verilog", "-verilog-flavor", "basys3",
+                        "-use-etherbond", "-cluster-spec", "../cluster.json", "-etherbond-mapfile", "../ethmap.json", "-peer-id", "1"], vd, gmp)
+    res = {"rc": str(rc).encode()}
+    for root, _, files in os.walk(vd):
+        for f in sorted(files):
+            res[os.path.relpath(os.path.join(root, f), vd)] = read(os.path.join(root, f)) or b""
+    return res
+
+
 def gen_bmq(rnd):
     n = rnd.choice([1, 2, 2, 3])
     qs = ["q%d" % i for i in range(n)]
@@ -246,6 +270,11 @@ def classify(sites):
         if not es:
             unknown.append(s)
             continue
+        # the class was given to the loop as it was written when it was read: a loop whose text changed is not covered by that review
+        reviewed = set(h for x in es for h in x.get("loops", []))
+        if reviewed and s.get("hash") and s["hash"] not in reviewed:
+            unknown.append(dict(s, changed=True))
+            continue
         # several loops of one function over the same map may be classed differently: the worst class decides
         e = next((x for x in es if x["class"] not in HARMLESS), es[0])
         counts[e["class"]] = counts.get(e["class"], 0) + 1
@@ -311,8 +340,9 @@ def run(res, a):
     vjobs = [("verilog:" + n, (lambda w, g, b=b: pipe_verilog(w, g, b))) for n, b in verilog_inputs[:6 if a.tier == "quick" else 40]]
     vjobs += [("verilog-bmapi-%s:%s" % (fl, n), (lambda w, g, b=b, fl=fl: pipe_verilog_bmapi(w, g, b, fl)))
               for n, b in verilog_inputs if n == "basm:threeio.basm" for fl in ("aximm", "axist")]
+    vjobs += [("verilog-etherbond:" + n, (lambda w, g, b=b: pipe_verilog_etherbond(w, g, b))) for n, b in verilog_inputs if n == "basm:threeio.basm"]
     with ThreadPoolExecutor(max_workers=14) as ex:
-        vres = list(ex.map(lambda j: repeat(j, runs if j[0].startswith("verilog-bmapi") else max(3, runs // 2)), vjobs))
+        vres = list(ex.map(lambda j: repeat(j, runs if j[0].startswith("verilog-bmapi") or j[0].startswith("verilog-etherbond") else max(3, runs // 2)), vjobs))
     for name, outs in vres:
         res.count_case({"job": name}, nontrivial=True)
         hashes = [o[0] for o in outs]
@@ -353,8 +383,9 @@ def run(res, a):
                 res.violation("C07 the visiting order of %s in %s/%s %s can reach an artefact: %s" % (s["expr"], s["pkg"], s["file"], s["func"],
                               e.get("detail") or e.get("why")), {"site": s, "class": e}, nofail=True)
         for s in unknown[:5]:
-            res.violation("C07 unclassified %s site %s/%s:%d %s %s — not covered by any order-independence theorem"
-                          % (s["kind"], s["pkg"], s["file"], s["line"], s["func"], s["expr"]), {"site": s}, nofail=True)
+            res.violation("C07 %s %s site %s/%s:%d %s %s — not covered by any order-independence theorem"
+                          % ("the loop was rewritten since it was classified:" if s.get("changed") else "unclassified", s["kind"], s["pkg"], s["file"],
+                             s["line"], s["func"], s["expr"]), {"site": s}, nofail=True)
         if failed and not unknown and not reaching:
             res.violation("C07 proof obligation no longer checks: %s" % (failed[:2],), {"obligation": [list(f) for f in failed][:3]}, nofail=True)
     return res.finish("proof")
